@@ -5,13 +5,55 @@ TITLE = {"C02": "for loops consume exactly what their iterators yield, lazily an
          "C03": "functions are pure: same arguments, same result, whatever happened before"}
 
 
+def ladder(ck, tier, only=None):
+    # ---- "at any call depth": a loop over a generator runs inside another loop's body, k call frames further down.  CalcSem gives the value for
+    # k = 0..6 (the same for all: the frames in between only pass the value up); the real pipeline must give that value for every k, in
+    # particular where the distance is a power of two or next to one (the recursion is plain, its depth is limited only by memory)
+    import sess, json
+    from astlib import assign, fn, call, N, I, block, fr, ife, bin_, lst
+    defs = [assign("inner", fn([], block([assign("t", I(0)), fr(["v", "u"], [call("fromto", I(0), I(3)), call("fromto", I(10), I(13))], assign("t", bin_("+", N("t"), bin_("+", bin_("*", N("v"), I(100)), N("u"))))), N("t")]))),
+            assign("dive", fn(["n"], ife(bin_("==", N("n"), I(0)), call("inner"), call("dive", bin_("-", N("n"), I(1)))))),
+            assign("outer", fn(["n"], block([assign("s", lst([])), fr(["w"], [call("fromto", I(0), I(2))], assign("s", bin_("+", N("s"), lst([N("w"), call("dive", N("n"))])))), N("s")]))),
+            assign("gen", fn(["n"], fr(["w"], [call("fromto", I(0), I(2))], block([bin_("+", I(0), I(0)), fr(["z"], [call("fromto", I(5), I(7))], block([I(0), __import__("astlib").y(bin_("+", N("z"), call("dive", N("n"))))]))])))),
+            assign("col", fn(["n"], block([assign("s", lst([])), fr(["e"], [call("gen", N("n"))], assign("s", bin_("+", N("s"), lst([N("e")])))), N("s")])))]
+    small = [{"id": 1, "items": defs + [call("outer", I(k)) for k in range(0, 7)] + [call("col", I(k)) for k in range(0, 7)], "stdin": []}]
+    so = sess.spec_obs(small)[1]
+    vals_outer = [o.get("val") for o in so[len(defs):len(defs) + 7]]
+    vals_col = [o.get("val") for o in so[len(defs) + 7:]]
+    if any(v is None or v != vals_outer[0] for v in vals_outer) or any(v is None or v != vals_col[0] for v in vals_col):
+        raise vlib.Infra("CalcSem does not give one value for the call-depth ladder: %s" % json.dumps(so)[:400])
+    depths = only or [7, 255, 256, 257, 32767, 32768, 65535, 65536, 131070, 131071, 131072, 131073] + ([] if tier == "quick" else [262142, 262143, 262144, 262145, 524286, 524287, 524288, 1048575])
+    from astlib import ps
+    ladder = [{"id": 100 + i, "items": [{"src": ps(d)} for d in defs] + [{"src": "outer(%d)" % k}, {"src": "col(%d)" % k}, {"src": "outer(3)"}], "stdin": [], "budget": 200000000} for i, k in enumerate(depths)]
+    real = vlib.run_real(ladder, timeout=3000)
+    for x, k in zip(ladder, depths):
+        res = real.get(x["id"]) or []
+        ck.cov["evaluations"] += 1
+        ck.cov["traces_validated_against_impl"] += 1
+        ck.cov["distinct_nontrivial"] += 1
+        got = [(o.get("kind"), o.get("val")) for o in res[len(defs):]]
+        want = [("val", vals_outer[0]), ("val", vals_col[0]), ("val", vals_outer[0])]
+        if got != want:
+            ck.violation("a loop %d call frames below another loop's body: outer(%d), col(%d), outer(3) give %s, specified (for every depth) %s" % (
+                k, k, k, json.dumps([{"kind": o.get("kind"), "val": o.get("val"), "msg": o.get("msg"), "err": o.get("err")} for o in res[len(defs):]])[:400], json.dumps([w[1] for w in want])[:200]),
+                {"ladder": {"depth": k}, "session": {"id": x["id"], "items": x["items"]}})
+    ck.part("loops at call depths up to %d below another loop (value from CalcSem at depths 0..6)" % max(depths), depths=len(depths))
+
+
 def run(tier, replay=None):
     ck = vlib.Check("C02", tier)
     if replay:
+        import json as _json
+        case = _json.load(open(replay))["case"]
+        if "ladder" in case:
+            ladder(ck, tier, only=[case["ladder"]["depth"]])
+            return ck.finish()
         return semcheck.replay_file(ck, replay)
     fams = props.c02_families(tier, vlib.seed())
     vs = semcheck.run_families(ck, fams, props.c02_nontrivial)
     semcheck.binding_selftest(ck, vs)
+    ladder(ck, tier)
     ck.cov["rule"] = props.c02_rule
+    ck.assumptions.append("call-depth ladder: CalcSem is evaluated for 0 to 6 intermediate frames and gives one value; that the value is the same for any number of intermediate frames is taken from the rules of CalcSem (a frame that only passes a value up), not evaluated by TLC at depth 10^5")
     ck.assumptions += ["CalcSem.tla as evaluated by TLC is the oracle; Unspecified sessions are only checked for no-crash"]
     return ck.finish()
